@@ -24,7 +24,7 @@ fn swo(a: &Value, b: &Value, c: &Value) {
     if ab == Equal && bc == Less { assert!(ac == Less, "role=comparator_equivalence_compatible_with_order"); }
 }
 
-// @vt prop=C15 tier=quick bound="all triples of values of an integer column (NULL or any i64)" outside="mixed-type columns (their order is not defined by the property); the sort algorithm itself (std)" timeout=600
+// @vt prop=C15 tier=quick bound="all triples of values of an integer column (NULL or any i64)" outside="mixed-type columns (their order is not defined by the property); the sort algorithm itself (std)" timeout=1800
 vt_proof! { unwind = 4; fn c15_sort_comparator_int() {
     let (a, b, c) = (any_int_or_null(), any_int_or_null(), any_int_or_null());
     swo(&a, &b, &c);
@@ -39,7 +39,7 @@ vt_proof! { unwind = 4; fn c15_sort_comparator_int() {
     kani::cover!(matches!(a, Value::Null) && matches!(b, Value::Int(_)) && matches!(c, Value::Int(_)), "w:null_and_two_ints");
 }}
 
-// @vt prop=C15 tier=quick bound="all triples of values of a float column (NULL or any non-NaN f64 incl. +-0, +-inf, subnormals)" outside="NaN (c15_sort_comparator_float_nan)" timeout=600
+// @vt prop=C15 tier=quick bound="all triples of values of a float column (NULL or any non-NaN f64 incl. +-0, +-inf, subnormals)" outside="NaN (c15_sort_comparator_float_nan)" timeout=1800
 vt_proof! { unwind = 4; fn c15_sort_comparator_float() {
     let (a, b, c) = (any_float_or_null(false), any_float_or_null(false), any_float_or_null(false));
     swo(&a, &b, &c);
@@ -52,7 +52,7 @@ vt_proof! { unwind = 4; fn c15_sort_comparator_float() {
     kani::cover!(matches!(a, Value::Float(x) if x < 0.0) && matches!(b, Value::Null), "w:negative_float_and_null");
 }}
 
-// @vt prop=C15 tier=quick bound="all triples of values of a float column incl. every NaN payload (consistency only: antisymmetry and transitivity, no particular place for NaN is demanded)" outside="-" timeout=600
+// @vt prop=C15 tier=quick bound="all triples of values of a float column incl. every NaN payload (consistency only: antisymmetry and transitivity, no particular place for NaN is demanded)" outside="-" timeout=1800
 vt_proof! { unwind = 4; fn c15_sort_comparator_float_nan() {
     let (a, b, c) = (any_float_or_null(true), any_float_or_null(true), any_float_or_null(true));
     kani::cover!(matches!(a, Value::Float(x) if x.is_nan()) && matches!(b, Value::Float(x) if x < 1.0) && matches!(c, Value::Float(x) if x > 2.0), "w:nan_between_two_numbers");
@@ -68,7 +68,7 @@ impl Hasher for Rec {
 fn stream(v: &Value) -> Rec { let mut r = Rec { b: [0; 24], n: 0 }; v.hash_to(&mut r); r }
 fn same_stream(a: &Rec, b: &Rec) -> bool { if a.n != b.n { return false; } let mut i = 0; let mut ok = true; while i < 24 { if i < a.n && a.b[i] != b.b[i] { ok = false; } i += 1; } ok }
 
-// @vt prop=C17 tier=quick bound="all pairs of join keys of one numeric type: (i64, i64) and (f64, f64) incl. +-0" outside="Int-vs-Float keys (c17_equal_keys_hash_equal_mixed); text/blob keys (equal bytes hash equally by construction of Hash for str/[u8])" timeout=600
+// @vt prop=C17 tier=quick bound="all pairs of join keys of one numeric type: (i64, i64) and (f64, f64) incl. +-0" outside="Int-vs-Float keys (c17_equal_keys_hash_equal_mixed); text/blob keys (equal bytes hash equally by construction of Hash for str/[u8])" timeout=1800
 vt_proof! { unwind = 26; fn c17_equal_keys_hash_equal_same_type() {
     let ints: bool = kani::any();
     let (a, b): (Value<'static>, Value<'static>) = if ints { (Value::Int(kani::any()), Value::Int(kani::any())) } else { (Value::Float(kani::any()), Value::Float(kani::any())) };
@@ -82,7 +82,7 @@ vt_proof! { unwind = 26; fn c17_equal_keys_hash_equal_same_type() {
     assert!(!keys_match_static(&ln, &la, &[0], &[0]) && !keys_match_static(&ln, &ln, &[0], &[0]), "role=null_join_key_matches_nothing");
 }}
 
-// @vt prop=C17 tier=quick bound="all pairs (i64 key, f64 key) that the join equality treats as equal" outside="-" timeout=600
+// @vt prop=C17 tier=quick bound="all pairs (i64 key, f64 key) that the join equality treats as equal" outside="-" timeout=1800
 vt_proof! { unwind = 26; fn c17_equal_keys_hash_equal_mixed() {
     let la = [Value::Int(kani::any())]; let lb = [Value::Float(kani::any())];
     let eq = keys_match_static(&la, &lb, &[0], &[0]);
